@@ -2,6 +2,7 @@
 package main
 
 import (
+	"os"
 	"context"
 	"fmt"
 	"regexp"
@@ -63,8 +64,18 @@ var (
 	tier    string
 )
 
+var probe []string
+
 func setup(t string) {
 	tier = t
+	if f := os.Getenv("VERIF_C12_PROBE"); f != "" {
+		b, _ := os.ReadFile(f)
+		for _, l := range strings.Split(string(b), "\n") {
+			if strings.TrimSpace(l) != "" {
+				probe = append(probe, l)
+			}
+		}
+	}
 	engine = promqlsim.NewEngine()
 	for _, m := range []string{"foo", "bar"} {
 		for _, a := range []string{"x", "y"} {
@@ -144,32 +155,55 @@ func deadReports(expr string) ([]deadReport, string) {
 }
 
 type candidate struct {
-	whole, other string // text of the binary expression and of the operand that does NOT contain the dead part
-	// keepsOther: with the flagged operand replaced by the empty vector the operation returns its other
-	// operand unchanged (X or {} = X, {} or Y = Y, X unless {} = X); otherwise it returns nothing
-	keepsOther bool
+	whole   string // the operation
+	without string // the operation with the flagged source replaced by a selector that matches nothing
 }
 
 func candidates(expr string, node promParser.Expr, d deadReport) []candidate {
 	var out []candidate
+	within := func(e promParser.Node) bool {
+		r := e.PositionRange()
+		return int(r.Start) <= d.start && d.end <= int(r.End)
+	}
 	promParser.Inspect(node, func(n promParser.Node, _ []promParser.Node) error {
 		b, ok := n.(*promParser.BinaryExpr)
 		if !ok {
 			return nil
 		}
-		within := func(e promParser.Expr) bool {
-			r := e.PositionRange()
-			return int(r.Start) <= d.start && d.end <= int(r.End)
-		}
-		txt := func(e promParser.Node) string {
-			r := e.PositionRange()
-			return expr[r.Start:r.End]
-		}
+		var o promParser.Expr
 		switch {
 		case within(b.LHS):
-			out = append(out, candidate{txt(b), txt(b.RHS), b.Op == promParser.LOR})
+			o = b.LHS
 		case within(b.RHS):
-			out = append(out, candidate{txt(b), txt(b.LHS), b.Op == promParser.LOR || b.Op == promParser.LUNLESS})
+			o = b.RHS
+		default:
+			return nil
+		}
+		br := b.PositionRange()
+		// the flagged source is the operand itself or, when the operand is a chain of `or` alternatives (each
+		// alternative is a separate source that flows into this operation), the alternative holding the position
+		for x := o; x != nil; {
+			xr := x.PositionRange()
+			whole := expr[br.Start:br.End]
+			out = append(out, candidate{whole: whole, without: expr[br.Start:xr.Start] + "zzz_none" + expr[xr.End:br.End]})
+			var next promParser.Expr
+			inner := x
+			for {
+				if p, ok := inner.(*promParser.ParenExpr); ok {
+					inner = p.Expr
+					continue
+				}
+				break
+			}
+			if ib, ok := inner.(*promParser.BinaryExpr); ok && ib.Op == promParser.LOR {
+				switch {
+				case within(ib.LHS):
+					next = ib.LHS
+				case within(ib.RHS):
+					next = ib.RHS
+				}
+			}
+			x = next
 		}
 		return nil
 	})
@@ -179,7 +213,7 @@ func candidates(expr string, node promParser.Expr, d deadReport) []candidate {
 func keyOf(v promql.Vector) map[string]bool {
 	m := map[string]bool{}
 	for _, s := range v {
-		m[s.Metric.String()] = true
+		m[fmt.Sprintf("%s=%v", s.Metric.String(), s.F)] = true
 	}
 	return m
 }
@@ -219,7 +253,13 @@ func body(c *explore.Chooser) *explore.Case {
 	if tier == "thorough" {
 		subs = append(subs, "ops2", "mini3")
 	}
+	if len(probe) > 0 { // VERIF_C12_PROBE=file: examine exactly the expressions listed there (debugging aid)
+		subs = []string{"probe"}
+	}
 	switch subs[c.Free(len(subs), "subspace")] {
+	case "probe":
+		e = promqlgen.Expr{Text: probe[c.Free(len(probe), "probe")], Metrics: map[string]bool{"foo": true, "bar": true}}
+		ok = true
 	case "ops1":
 		e, ok = promqlgen.Gen(c, &frag, 1, "e")
 	case "wrapped":
@@ -296,7 +336,7 @@ func body(c *explore.Chooser) *explore.Case {
 	for _, d := range reports {
 		cands := candidates(e.Text, node, d)
 		if len(cands) == 0 {
-			cands = []candidate{{whole: e.Text}}
+			cands = []candidate{{whole: e.Text, without: "zzz_none"}}
 		}
 		refutedAll := true
 		var witness []string
@@ -306,27 +346,22 @@ func body(c *explore.Chooser) *explore.Case {
 				cs.Count("engine_evaluations", 1)
 				v, err := promqlsim.Instant(engine, db, cand.whole, evalAt)
 				if err != nil || len(v) == 0 {
+					continue // the operation returns nothing here: consistent with the report
+				}
+				// the flagged source contributed iff the result differs from what the operation returns without it
+				o, err := promqlsim.Instant(engine, db, cand.without, evalAt)
+				if err != nil {
 					continue
 				}
-				if !cand.keepsOther {
-					refuted = true // the operation returns something although the flagged operand "is dead"
-				} else {
-					o, err := promqlsim.Instant(engine, db, cand.other, evalAt)
-					if err != nil {
-						continue
+				ko, kv := keyOf(o), keyOf(v)
+				for kk := range kv {
+					if !ko[kk] {
+						refuted = true
 					}
-					// the flagged operand contributed iff the result differs from the other operand alone
-					// (compared without the metric name, which `or`/`unless` keep but arithmetic drops)
-					ok, kv := keyOf(o), keyOf(v)
-					for kk := range kv {
-						if !ok[kk] {
-							refuted = true
-						}
-					}
-					for kk := range ok {
-						if !kv[kk] {
-							refuted = true
-						}
+				}
+				for kk := range ko {
+					if !kv[kk] {
+						refuted = true
 					}
 				}
 				if refuted {
